@@ -1,8 +1,8 @@
 // Command ssasym is the CLI of engine E1 (see /verif/engine/E1_SPEC.md).
 //
 //	ssasym -pkg <import path or ./dir in /repo> -harness <dir with zz_verif_*.go> -func H1,H2,...
-//	       [-solver z3|z3-new|cvc5] [-timeout-ms N] [-max-paths N] [-max-steps N] [-out result.json]
-//	       [-replay-dir DIR] [-selftest N] [-seed S] [-v] [-smt-log PREFIX] [-list] [-no-replay] [-no-wire-nf]
+//	       [-solver z3|z3-new|cvc5] [-timeout-ms N] [-max-paths N] [-max-steps N] [-max-decisions N] [-out result.json]
+//	       [-replay-dir DIR] [-selftest N] [-seed S] [-v] [-smt-log PREFIX] [-list] [-no-replay] [-no-wire-nf] [-emit-intrinsics DIR]
 //
 // Exit status: 0 all obligations valid; 1 some obligation violated (replayed natively);
 // 2 engine error or solver/native mismatch; 3 nothing violated but something inconclusive,
@@ -28,6 +28,7 @@ func main() {
 	timeout := flag.Int("timeout-ms", 120000, "per-query solver timeout in milliseconds")
 	maxPaths := flag.Int("max-paths", 20000, "path bound per harness")
 	maxSteps := flag.Int64("max-steps", 200000000, "interpreter step bound per path")
+	maxEvents := flag.Int("max-decisions", 4096, "bound on solver-consulting events (forks, feasibility checks, assertions) per path")
 	out := flag.String("out", "", "write result.json here")
 	replayDir := flag.String("replay-dir", "", "directory for replay artefacts (default: a temporary directory)")
 	selftest := flag.Int("selftest", 0, "differential validation: N seeded random concrete runs per harness, interpreter vs native")
@@ -37,12 +38,25 @@ func main() {
 	list := flag.Bool("list", false, "list harness functions and exit")
 	noReplay := flag.Bool("no-replay", false, "do not replay counterexamples natively (they are then reported inconclusive)")
 	noWire := flag.Bool("no-wire-nf", false, "disable the bit-wiring normal form of the term layer (cross-check: everything is then decided by the solver)")
+	emit := flag.String("emit-intrinsics", "", "write the generated zz_verif_intrinsics.go and zz_verif_intrinsics_native.go for the harness package into DIR and exit")
 	flag.Parse()
 	ssasym.WireNormalForm = !*noWire
 
 	if *pkg == "" || *harness == "" {
 		flag.Usage()
 		os.Exit(2)
+	}
+	if *emit != "" {
+		name, err := ssasym.HarnessPackageName(*harness)
+		if err == nil {
+			err = ssasym.EmitIntrinsics(*emit, name)
+		}
+		if err != nil {
+			fmt.Fprintln(os.Stderr, "ssasym:", err)
+			os.Exit(2)
+		}
+		fmt.Println("wrote intrinsics for package", name, "to", *emit)
+		return
 	}
 	if err := ssasym.FixGoPath(); err != nil {
 		fmt.Fprintln(os.Stderr, "ssasym:", err)
@@ -88,7 +102,7 @@ func main() {
 		fmt.Fprintln(os.Stderr, "ssasym: no harness function selected")
 		os.Exit(2)
 	}
-	cfg := &ssasym.Config{Solver: *solver, TimeoutMS: *timeout, MaxPaths: *maxPaths, MaxSteps: *maxSteps,
+	cfg := &ssasym.Config{Solver: *solver, TimeoutMS: *timeout, MaxPaths: *maxPaths, MaxSteps: *maxSteps, MaxEvents: *maxEvents,
 		ReplayDir: *replayDir, Seed: *seed, Verbose: *verbose, SMTLog: *smtLog, NoReplay: *noReplay}
 	eng := ssasym.NewEngine(L, cfg, os.Stdout)
 	defer eng.Close()
